@@ -212,7 +212,10 @@ impl<'a> G<'a> {
             }
             14..=15 => {
                 self.f("record");
-                match self.rng.below(6) {
+                match self.rng.below(8) {
+                    // comments in front of PUNNED fields (`i`, and `b: b`, which the formatter puns)
+                    6 => format!("Foo {{\n{}i,\n{}b: {},\n}}", self.cmt(), self.cmt(), self.expr(d1)),
+                    7 => format!("Foo {{\n{}i: {},\n{}b: b,\n}}", self.cmt(), self.expr(d1), self.cmt()),
                     0 => format!("Foo {{ i: {}, b: {} }}", self.expr(d1), self.expr(d1)),
                     1 => "Foo { i, b }".to_string(),
                     2 => format!("Foo {{ i, b: {} }}", self.expr(d1)),
@@ -223,7 +226,9 @@ impl<'a> G<'a> {
             }
             16 => {
                 self.f("record-update");
-                match self.rng.below(3) {
+                match self.rng.below(5) {
+                    3 => format!("Foo {{\n..x,\n{}i,\n}}", self.cmt()),
+                    4 => format!("Foo {{\n..x,\n{}i: {},\n{}b,\n}}", self.cmt(), self.expr(d1), self.cmt()),
                     0 => format!("Foo {{ ..x, i: {} }}", self.expr(d1)),
                     1 => "Foo { ..x, i }".to_string(),
                     _ => format!("mod.Foo {{ ..foo(x), i: {}, b: {} }}", self.expr(d1), self.expr(d1)),
